@@ -12,8 +12,13 @@ TokMatch(text, st, ot, lo, hi) ==
   /\ IF st.k = "NLTERM" THEN ot.e = ot.s + 1 /\ lo <= ot.s /\ ot.e <= hi /\ (\E i \in 1..Len(text) : text[i].cls = "nl" /\ Offset(text, i) = ot.s)
      ELSE st.s = ot.s /\ st.e = ot.e /\ st.v = ot.v
   /\ (st.k = "INTEGER_LITERAL" => DigitsToInt(st.v) = ot.val)
+\* mode "sig": only the significant tokens are compared (C09: the partition of the text); whether a line break
+\* becomes a terminator is C10's subject (mode "full")
+OnlySig(toks) == SelectSeq(toks, LAMBDA t : t.k # "NLTERM")
 LexEv(e) ==
-  LET r == Lex(e.text) o == e.obs IN
+  LET r0 == Lex(e.text)
+      r == IF e.mode = "sig" /\ r0.ok THEN [r0 EXCEPT !.toks = OnlySig(@)] ELSE r0
+      o == IF e.mode = "sig" /\ ~Has(e.obs, "panic") /\ e.obs.ok THEN [e.obs EXCEPT !.toks = OnlySig(@)] ELSE e.obs IN
   IF Has(o, "panic") THEN Bad("tokenize panicked")
   ELSE IF r.ok # o.ok THEN Bad("accept/reject differs from the specification")
   ELSE IF r.ok THEN
